@@ -385,6 +385,9 @@ theorem fractionPhase_trunc (o : POpts) (b : Bytes) (m0 : Nat) (fp : FracPart) (
     (h : fractionPhase c o b m0 = .ok fp) :
     fp.byte = Bytes.at b fp.byte.index ∧ b.index ≤ fp.byte.index ∧ Bytes.Valid fp.byte ∧
     fp.nAfterDot ≤ fp.byte.index - b.index ∧
+    (b.firstIsCased o.dp = true → b.index + 1 ≤ fp.byte.index ∧
+      ∀ ch, b.slc[fp.byte.index]? = some ch → charToDigit ch c.mantissaRadix = none) ∧
+    (¬ b.firstIsCased o.dp = true → fp.byte = b ∧ fp.nAfterDot = 0) ∧
     ∀ n, fp.byte.index ≤ n →
       fractionPhase c o (trunc n b) m0 = .ok { fp with byte := trunc n fp.byte } := by
   unfold fractionPhase at h
@@ -406,6 +409,8 @@ theorem fractionPhase_trunc (o : POpts) (b : Bytes) (m0 : Nat) (fp : FracPart) (
       | ok pd =>
         obtain ⟨ds, b2⟩ := pd
         obtain ⟨d1, d2, d3, d4⟩ := parseDigits_trunc hf hd .fraction c.mantissaRadix b1 b2 ds a3 hdg
+        have dstop := parseDigits_stop hf hd .fraction c.mantissaRadix b1 b2 ds a3 hdg
+        have hb1 : b1.slc = b.slc := by rw [a1]; rfl
         simp only [hdg] at h
         cases hsl : sliceTo c (Bytes.at b (b.index + 1)) (b2.index - (b.index + 1))
             "fraction get_unchecked(..b_after_dot)" with
@@ -418,8 +423,11 @@ theorem fractionPhase_trunc (o : POpts) (b : Bytes) (m0 : Nat) (fp : FracPart) (
             simp only [hsc, Except.ok.injEq] at h
             subst h
             simp only [at_index] at a2
-            refine ⟨?_, by simp only; omega, d3, by simp only; omega, ?_⟩
+            refine ⟨?_, by simp only; omega, d3, by simp only; omega, ?_, fun hne => absurd hdp hne, ?_⟩
             · simp only; rw [d1, a1]; rfl
+            · intro _
+              refine ⟨by simp only; omega, ?_⟩
+              intro ch hch; simp only at hch; rw [← hb1] at hch; exact dstop ch hch
             · intro n hn
               simp only at hn
               unfold fractionPhase
@@ -439,7 +447,7 @@ theorem fractionPhase_trunc (o : POpts) (b : Bytes) (m0 : Nat) (fp : FracPart) (
   · rw [if_neg hdp] at h
     simp only [pure, Except.pure, Except.ok.injEq] at h
     subst h
-    refine ⟨rfl, Nat.le_refl _, hv, by simp, ?_⟩
+    refine ⟨rfl, Nat.le_refl _, hv, by simp, fun hh => absurd hh hdp, fun _ => ⟨rfl, rfl⟩, ?_⟩
     intro n hn
     unfold fractionPhase
     have hf2 : ¬ (trunc n b).firstIsCased o.dp = true := by
